@@ -39,7 +39,8 @@ Inductive perr :=
  | EComplexNotSupported    (* "complex requests `{} || {} ...` are not supported" *)
  | EEmptySelAgg            (* "requests like `{} | ....` are not supported" *)
  | EEmptySelOr             (* "requests like `{} || .....` are not supported" *)
- | EOrEmptySel.            (* "requests like `... || {}` are not supported" *)
+ | EOrEmptySel             (* "requests like `... || {}` are not supported" *)
+ | EAggNoAttr.             (* "requests like `{...} | avg() ...` are not supported: the aggregated attribute is missing" *)
 
 Inductive result (A : Type) := Ok (a : A) | Err (e : perr) | Panic.
 Arguments Ok {A}. Arguments Err {A}. Arguments Panic {A}.
@@ -185,6 +186,17 @@ Definition agg_step (attr : string) : list expr * option expr :=
   else if String.eqb attr "duration" then ([], Some (Col (Fn FToFloat64 [Id "duration"]) "agg_val"))
   else let a' := strip_agg attr in ([key_clause a'], Some (Col (AttrValue a') "agg_val")).
 
+(* holdsWithoutIndexedTerm: can the condition hold for a span none of whose index rows passes a
+   key/val test?  Only a `duration` term looks at no key/val.  The key/val pre-filter is applied
+   only when this is false (47905ca): otherwise a span matching through a duration term alone
+   would lose all its rows. *)
+Fixpoint holds_without_indexed (terms : list attr_sel) (c : condition) : bool :=
+  match c with
+  | CTerm idx => match nth_error terms idx with Some t => String.eqb (a_label t) "duration" | None => false end
+  | CBin AOAnd l r => holds_without_indexed terms l && holds_without_indexed terms r
+  | CBin _ l r => holds_without_indexed terms l || holds_without_indexed terms r
+  end.
+
 Definition random_filter (c : ctx) : list expr :=
   let h := LOp OEq [Bin BMod (Fn FCityHash64 [Id "trace_id"]) (NumLit (string_of_Z (rf_max c))); IntV (rf_i c)] in
   if Z.eqb (rf_max c) 0 then []
@@ -206,10 +218,12 @@ Definition attr_condition (c : ctx) (terms : list attr_sel) (cond : option condi
     let '(extra, aggcol) := agg_step agg_attr in
     let main1 := match aggcol with Some col => set_cols (s_cols main ++ [col]) main | None => main end in
     let wh := (where0 ++ extra)%list in
-    (* repair of defect 6: no WHERE clause for an empty term list (it printed "and ()") *)
+    (* no WHERE clause for an empty term list (defect 6: it printed "and ()"), none when a span can
+       match without passing it *)
     let main2 := match wh with
                  | [] => and_having [having] main1
-                 | _ => and_where [LOp OOr wh] (and_having [having] main1)
+                 | _ => if holds_without_indexed terms cd then and_having [having] main1
+                        else and_where [LOp OOr wh] (and_having [having] main1)
                  end in
     Ok (match random_filter c with [] => main2 | f => and_where f main2 end)
   end.
@@ -321,17 +335,24 @@ Fixpoint all_have_attr (s : script) : bool :=
   end.
 Definition tails_have_attr (t : option script) : bool :=
   match t with None => true | Some s => all_have_attr s end.
+Definition agg_lacks_attr (h : selector) : bool :=
+  match sel_agg h with
+  | Some g => match g_fn g with AgCount => false | _ => String.eqb (g_attr g) "" end
+  | None => false
+  end.
 Definition check (s : script) : result unit :=
   match s with
   | Script h _ tl =>
-    match sel_attr h with
-    | None =>
-        match sel_agg h with
-        | Some _ => Err EEmptySelAgg
-        | None => match tl with Some _ => Err EEmptySelOr | None => if tails_have_attr tl then Ok tt else Err EOrEmptySel end
-        end
-    | Some _ => if tails_have_attr tl then Ok tt else Err EOrEmptySel
-    end
+    do _ <- match sel_attr h with
+            | None =>
+                match sel_agg h with
+                | Some _ => Err EEmptySelAgg
+                | None => match tl with Some _ => Err EEmptySelOr | None => Ok tt end
+                end
+            | Some _ => Ok tt
+            end;
+    if agg_lacks_attr h then Err EAggNoAttr
+    else if tails_have_attr tl then Ok tt else Err EOrEmptySel
   end.
 
 Definition agg_attr_of (s : selector) : string := match sel_agg s with Some g => g_attr g | None => "" end.
@@ -378,7 +399,7 @@ Fixpoint node_at (path : list nat) (t : ep) : option ep :=
   end.
 
 (* cur = None: the root object; Some path: the node at that path below root.operand.
-   Result None = Go panic (index out of range on operands()[0], nil script). *)
+   Result None = Go panic (kept in the type; plan_complex_total shows it cannot happen any more). *)
 Fixpoint plan_complex (root : option ep) (cnt : Z) (cur : option (list nat)) (sc : script) : option (option ep * Z) :=
   match sc with
   | Script _ ao tl =>
@@ -387,24 +408,26 @@ Fixpoint plan_complex (root : option ep) (cnt : Z) (cur : option (list nat)) (sc
       | None => Some node                                 (* rootExpressionPlanner.addOp *)
       | Some p => match r with Some t => Some (add_op_at p node t) | None => None end
       end in
-    (* current.operands()[0] as a path; None = panic *)
-    let first (r : option ep) : option (list nat) :=
+    (* the last operand of current (the node just added), as a path; None = panic *)
+    let last (r : option ep) : option (list nat) :=
       match cur with
       | None => Some []
       | Some p => match r with
                   | Some t => match node_at p t with
-                              | Some (EPComplex _ _ (_ :: _)) => Some (p ++ [O])%list
+                              | Some (EPComplex _ _ ((_ :: _) as ops)) => Some (p ++ [Nat.pred (List.length ops)])%list
                               | _ => None
                               end
                   | None => None
                   end
       end in
+    (* an operator with nothing after it: this is the last selector *)
+    let ao := match tl with None => AONone | Some _ => ao end in
     match ao with
     | AONone => Some (add (EPSimple sc (prefix_of (cnt + 1))) root, (cnt + 1)%Z)
     | AOAnd =>
         let node := EPComplex (prefix_of (cnt + 1)) AOAnd [EPSimple sc (prefix_of (cnt + 2))] in
         let root1 := add node root in
-        match first root1 with
+        match last root1 with
         | Some p' => match tl with
                      | Some s' => plan_complex root1 (cnt + 2)%Z (Some p') s'
                      | None => None                       (* script.AndOr on a nil *TraceQLScript *)
@@ -426,31 +449,50 @@ Fixpoint plan_complex (root : option ep) (cnt : Z) (cur : option (list nat)) (sc
 (* ---------------------------------------------------------------- complex_and.go / complex_or.go *)
 Definition pre_alias (i : nat) : string := "_" ++ string_of_Z (Z.of_nat i) ++ "_pre_".
 
-Definition wrap_operand (i : nat) (s : select) : select :=
-  let s' := set_cols (s_cols s ++ [Col (Fn FMax [Id "timestamp_ns"]) "max_timestamp_ns"]) s in
+(* maxTimestampCol: the recency column added to the statement of an operand *)
+Definition max_ts_col (nested : option string) : expr :=
+  match nested with
+  | Some prefix => Col (Fn FMax [Id (prefix ++ "a.max_timestamp_ns")]) "max_timestamp_ns"
+  | None => Col (Fn FMax [Id "timestamp_ns"]) "max_timestamp_ns"
+  end.
+
+(* one operand: nested = prefix of the operand when it is itself a && / || planner; tagged = && (column _op) *)
+Definition wrap_operand (tagged : bool) (i : nat) (o : option string * select) : select :=
+  let s := snd o in
+  let s' := set_cols (s_cols s ++ [max_ts_col (fst o)]) s in
   let a := pre_alias i in
   set_with [(a, s')]
-    (Sel [] false [Col (Id "trace_id") "trace_id"; Col (Id "_span_id") "span_id"; Col (Id "max_timestamp_ns") "max_timestamp_ns"]
+    (Sel [] false ([Col (Id "trace_id") "trace_id"; Col (Id "_span_id") "span_id"; Col (Id "max_timestamp_ns") "max_timestamp_ns"]
+                   ++ (if tagged then [Col (NumLit (string_of_Z (Z.of_nat i))) "_op"] else []))
          (Some (WRef a)) [(JArray, Col (Id (a ++ ".span_id")) "_span_id", None)] None None None [] [] None).
 
-Fixpoint wrap_operands (i : nat) (l : list select) : list select :=
-  match l with [] => [] | s :: r => wrap_operand i s :: wrap_operands (S i) r end.
+Fixpoint wrap_operands (tagged : bool) (i : nat) (l : list (option string * select)) : list select :=
+  match l with [] => [] | s :: r => wrap_operand tagged i s :: wrap_operands tagged (S i) r end.
 
-Definition complex_select (fn : andor) (prefix : string) (sels : list select) : select :=
-  let subs := wrap_operands 0 sels in
+(* ComplexAndPlanner / ComplexOrPlanner.Process.  Both concatenate their operands (UNION ALL) and group
+   by trace; && tags every row with the number of its operand and keeps the traces to which all
+   operands contributed (a03a87c; before: INTERSECT of the span rows). *)
+Definition complex_select (fn : andor) (prefix : string) (sels : list (option string * select)) : select :=
+  let tagged := match fn with AOAnd => true | _ => false end in
+  let subs := wrap_operands tagged 0 sels in
   Sel [] false [Col (Id "trace_id") "trace_id"; Col (PFn FGroupUniqArray [NumLit "100"] [Id "span_id"]) "span_id"]
-      (Some (Col (match fn with AOAnd => Intersect subs | _ => Union subs end) (prefix ++ "a"))) []
-      None None None [Id "trace_id"] [Ord (Fn FMax [Id "max_timestamp_ns"]) true] None.
+      (Some (Col (Union subs) (prefix ++ "a"))) []
+      None None
+      (if tagged then Some (LOp OAnd [LOp OEq [Fn FUniqExact [Id "_op"]; IntV (Z.of_nat (List.length sels))]]) else None)
+      [Id "trace_id"] [Ord (Fn FMax [Id (prefix ++ "a.max_timestamp_ns")]) true] None.
+
+Definition nested_prefix (t : ep) : option string :=
+  match t with EPComplex p _ _ => Some p | EPSimple _ _ => None end.
 
 (* iExpressionPlanner.planner() + Process *)
 Fixpoint ep_process (c : ctx) (n : nat) (t : ep) : result select :=
   match t with
   | EPSimple s prefix => simple_planner c s prefix n
   | EPComplex prefix fn ops =>
-      do sels <- (fix go (l : list ep) : result (list select) :=
+      do sels <- (fix go (l : list ep) : result (list (option string * select)) :=
                     match l with
                     | [] => Ok []
-                    | x :: r => do y <- ep_process c n x; do ys <- go r; Ok (y :: ys)
+                    | x :: r => do y <- ep_process c n x; do ys <- go r; Ok ((nested_prefix x, y) :: ys)
                     end) ops;
       match fn with
       | AONone => Panic        (* "unknown operator": not reachable, planComplex only builds && and || nodes *)
@@ -538,7 +580,7 @@ Definition select_values (c : ctx) (key : string) (main : select) : select :=
 
 Definition all_values (c : ctx) (key : string) : select :=
   Sel [] true [Col (Id "val") "val"] (Some (Id (kv_dist_table c))) [] None
-      (Some (LOp OAnd [LOp OGe [Id "date"; StrV (ffd_from c)]; LOp OLe [Id "date"; StrV (ffd_to c)];
+      (Some (LOp OAnd [LOp OGe [Id "date"; StrV (ffd_from c)]; LOp OLe [Id "date"; StrV (to_date c)];
                        LOp OEq [Id "key"; StrV key]])) None [] [] None.
 
 Inductive mode := MSearch | MTags | MValues (key : string).
